@@ -183,6 +183,7 @@ def enc_classes(tx, ktypes):
 HDR_CFG = """SPECIFICATION Spec
 CONSTANTS
   N = %(N)d
+  PeerSetSizes = %(sizes)s
   C = %(C)d
   LedgerSigsVerified = %(sv)d
   LedgerMinDistinct = %(md)d
@@ -194,10 +195,10 @@ CONSTANTS
   MaxOutsiders = %(outs)d
   SigSlack = %(slack)d
   AlignOpts = %(align)d
+  SyncMinListTab = %(mltab)s
   SyncSigsTab = %(svtab)s
   QuorumPads = %(qpads)s
-  QuorumMinBk = %(qmin)d
-  QuorumMaxBk = %(qmax)d
+  QuorumBelow = %(qbelow)d
   QuorumShort = %(qshort)d
 INVARIANTS %(inv)s
 %(edge)s
@@ -206,14 +207,17 @@ CHECK_DEADLOCK FALSE
 
 
 def hdr_cfg(N, C, sv, md, ml, mask, which, maxbk, maxsigs, inv, edge, outs=1, slack=0, align=0,
-            svtab=None, qpads=(), qmin=0, qmax=0, qshort=1):
-    """svtab: {list length L: signatures verified m} as probed from header_sync (None/{} = the design: all L);
-    qpads..qshort: the quorum-mode enumeration of SigHeader (C33), off by default"""
+            sizes=None, mltab=None, svtab=None, qpads=(), qbelow=1, qshort=1):
+    """sizes: the peer-set sizes covered (default: just N).  mltab {size: shortest list taken} and svtab {(size, list
+    length L): signatures verified m} as probed from header_sync (None/{} = ml for every size / the design: all L).
+    qpads, qbelow, qshort: the quorum-mode enumeration of SigHeader (C33), off by default."""
     tlaset = lambda xs: "{" + ", ".join(xs) + "}"
     return HDR_CFG % dict(N=N, C=C, sv=sv, md=md, ml=ml, mask="TRUE" if mask else "FALSE", which=which, maxbk=maxbk,
                           maxsigs=maxsigs, inv=inv, edge="ACTION_CONSTRAINT Edge" if edge else "", outs=outs, slack=slack, align=align,
-                          svtab=tlaset(str(L * 100 + m) for L, m in sorted((svtab or {}).items())),
-                          qpads=tlaset('"%s"' % k for k in qpads), qmin=qmin, qmax=qmax, qshort=qshort)
+                          sizes=tlaset(str(x) for x in sorted(sizes or [N])),
+                          mltab=tlaset(str(p_ * 100 + l) for p_, l in sorted((mltab or {}).items())),
+                          svtab=tlaset(str(p_ * 10000 + L * 100 + m) for (p_, L), m in sorted((svtab or {}).items())),
+                          qpads=tlaset('"%s"' % k for k in qpads), qbelow=qbelow, qshort=qshort)
 
 
 def G(k):
@@ -232,7 +236,8 @@ def first_accepted(obs, what, ctx):
 
 
 def hdr_rows(rows):
-    return [{"which": r[1], "bk": r[2], "sigs": r[3], "acc": r[4], "ok": r[5], "dup": r[6]} for r in rows if r[0] == "H"]
+    return [{"which": r[1], "bk": r[2], "sigs": r[3], "acc": r[4], "ok": r[5], "dup": r[6], "n": r[7] if len(r) > 7 else None}
+            for r in rows if r[0] == "H"]
 
 
 def hdr_str(h):
